@@ -132,6 +132,20 @@ def event_log():
     return _GHOST.setdefault("log", [])
 
 
+def any_bool(tag="b"):
+    """an unknown choice of the environment (scheduler, kernel, peer).  Symbolically: a fresh Boolean
+    per call; natively (replay): the value the counterexample chose, in call order (default False)."""
+    ch = _GHOST.get("choices") or []
+    return bool(ch.pop(0)) if ch else False
+
+
+def any_int(tag, lo, hi):
+    """an unknown integer of the environment with lo <= n <= hi (see any_bool)"""
+    ch = _GHOST.get("choices") or []
+    n = int(ch.pop(0)) if ch else lo
+    return max(lo, min(hi, n))
+
+
 def seq_uncons(s):
     """(first element, rest) of a non-empty sequence; the proof must show it is non-empty"""
     return s[0], s[1:]
